@@ -1,0 +1,21 @@
+//go:build verif
+
+package transformer
+
+// VerifListenerTrace, when non-nil, receives one event per relation-level listener callback: the callback, its arguments
+// and the projection of the listener state after it (number of collected rewrites, current operator, depth of the
+// rewrite stack). Only compiled with the build tag `verif`; process-global, for a single-threaded harness.
+var VerifListenerTrace func(event string, args []string, rewrites int, operator string, stackDepth int)
+
+func verifTraceListener(l *OpenFgaDslListener, event string, args ...string) {
+	if VerifListenerTrace == nil {
+		return
+	}
+
+	rewrites, operator := -1, ""
+	if l.currentRelation != nil {
+		rewrites, operator = len(l.currentRelation.Rewrites), string(l.currentRelation.Operator)
+	}
+
+	VerifListenerTrace(event, args, rewrites, operator, len(l.rewriteStack))
+}
